@@ -40,7 +40,15 @@ def gen_login(rng, n=None):
     if rng.random() < 0.1:
         sid = rng.choice([b"\x00\x00\x00\x00", b"\xff\xff\xff\xff", b"\x00\x00\x00\x01"])
     n = n or rng.choice([12, 13, 24, 48, 48, 82, 100])
-    return H.login_reply(sid, n)
+    r = H.login_reply(sid, n)
+    k = rng.random()
+    if k < 0.08:        # the login reply followed, in the same read, by the first bytes of another frame
+        r += (b"\xfe\xf0" + rng.choice([b"", b"\x30\x00", b"\x30\x00\x02\x32\x01", rng.randbytes(7)])).hex()
+    elif k < 0.16:      # a complete stale frame (a late answer to something else, with its own length field) in front of the reply,
+        m = rng.choice([12, 16, 48])            # or in front of only the first few bytes of it
+        stale = b"\xfe\xf0" + bytes([m, 0]) + rng.randbytes(m - 4)
+        r = stale.hex() + rng.choice([r, r[:2 * rng.randrange(1, 12)], ""])
+    return r
 
 
 def gen_name(rng, lo=0, hi=40):
